@@ -63,6 +63,20 @@ def lockedCall (r : String × String × String) : Bool :=
 
 theorem multi_step_in_one_section : mustBeLocked.all lockedCall = true := by decide +kernel
 
+/-- look-up-then-register of `OpenStore`: every access of a provider's `OpenStore` to its table of open stores — the
+    look-up as well as the registration — is made under the WRITE lock (one critical section; `Interleave.lean`:
+    `open_store_one_object_per_name` for every schedule, `open_store_unlocked_two_objects` without). A look-up under the read
+    lock followed by a registration under the write lock (seeded change C13-5) fails this. -/
+def openStoreTables : List (String × String) :=
+  [("mem.Provider", "dbs"), ("cachedstore.CachedProvider", "openStores"), ("batchedstore.Provider", "openStores"),
+   ("formattedstore.FormattedProvider", "openStores")]
+
+def openStoreLocked (r : String × String) : Bool :=
+  let rows := Generated.accesses.filter fun a => a.typ == r.1 && a.method == "OpenStore" && a.field == r.2
+  rows.any (·.rw == "R") && rows.any (·.rw == "W") && rows.all (·.writeLock)
+
+theorem open_store_lookup_and_register_in_one_section : openStoreTables.all openStoreLocked = true := by decide +kernel
+
 /-- sync.Mutex / RWMutex are not reentrant: no path of a method takes a lock it already holds (Lock under Lock or RLock
     blocks for ever, RLock under RLock blocks as soon as a writer queues in between) -/
 theorem no_recursive_lock : Generated.relocks = [] := by decide +kernel
